@@ -224,6 +224,18 @@ func fetchRelatedStatus(w *World, r *RelSpec) int {
 }
 
 func refStatus(w *World, q *ReqSpec) int {
+	if q.Inject != nil {
+		// the document carries exactly the injected errors: first error carrying a status, else 500
+		if len(*q.Inject) == 0 {
+			return 200
+		}
+		for _, s := range *q.Inject {
+			if s != "" {
+				return errStatus(s)
+			}
+		}
+		return 500
+	}
 	if !refAcceptable(q) {
 		return 406
 	}
